@@ -255,3 +255,8 @@ def _mentions(x, l):
     if isinstance(x, list):
         return any(_mentions(v, l) for v in x)
     return False
+
+
+def fixture(fctx):
+    import fixture_checks
+    return fixture_checks.nopanic_alive(fctx) + fixture_checks.dropped_result_alive(fctx, _mentions)
